@@ -45,9 +45,12 @@ def cover (k : String) : M Unit := P.act fun g => .ok { g with cov := bump g.cov
 def modify (f : G → G) : M Unit := P.act fun g => .ok (f g)
 
 /-! ### keeping the function-valued model state shallow (semantically the identity) -/
-def compactFn {α} (f : Nat → α) (n : Nat) : Nat → α :=
-  let a := Array.ofFn (n := n) fun i => f i.val
+@[noinline] def fromArr {α} (a : Array α) (f : Nat → α) : Nat → α :=
   fun p => if h : p < a.size then a[p] else f p
+
+@[noinline] def tabulate {α} (f : Nat → α) (n : Nat) : Array α := Array.ofFn (n := n) fun i => f i.val
+
+def compactFn {α} (f : Nat → α) (n : Nat) : Nat → α := fromArr (tabulate f n) f
 
 def compact (s : State) : State :=
   let n := s.hi
